@@ -12,11 +12,22 @@ ENGINES["promsim"] = {
     "stub": ["PipelineCaller and result-capability ClientHooks (instrumented recorders)", "scheduler (simrt baton in a testing/synctest bubble)"],
 }
 
+ENGINES["srvsim"] = {
+    "real": ["server.Server, answerQueue, structReturner, returnEmbargoer (server/), capnp.Client, capnp.Promise/Answer - mechanically instrumented"],
+    "stub": ["method implementations, Shutdowner, Returner for RecvCall (instrumented recorders)", "scheduler (simrt baton in a testing/synctest bubble)"],
+}
+
 RULE_SCHED = ("each run is one seeded schedule+workload drawn from the choice tape; a run is non-trivial if it had at least one "
               "preemptive context switch or fired fault; distinct = distinct hashes of the full decision trace (schedule choices, "
               "fired faults, fired events) among non-trivial runs")
 
 CHECKS = {
+    "C12": {
+        "engine": "srvsim", "level": "exploration",
+        "budget": {"quick": 25, "thorough": 600},
+        "rule": RULE_SCHED,
+        "faults": ["ctx_cancel", "janitor_cancel"],
+    },
     "C11": {
         "engine": "promsim", "level": "exploration",
         "budget": {"quick": 25, "thorough": 600},
